@@ -143,7 +143,7 @@ func TestCheck(t *testing.T) {
 }
 
 func lawsRule() string {
-	return "laws: seeded, boundary-biased inputs per family — keys (scalars 1..16, order-1.., powers of two, leading zero bytes, coordinates with a leading zero byte; P-256 and secp256k1), messages, NEP-2 passphrases (incl. non-NFC spellings), Base58Check payloads (leading zero bytes, powers of 58 and 256), script hashes, Uint160/256 (zero, ff, leading/trailing zeros), Fixed8 / decimals (unit and int64 boundaries, fraction-only, precisions 0-18), VM integers (sign-bit, byte-carry and word-carry boundaries up to 40 bytes; arbitrary and sign-extended byte strings), hash lists of 0-33 (and up to 257; thorough 4097) leaves, value trees for the script builder (ints of every operand width, byte strings at the PUSHDATA1/2/4 limits, bools, null, nested arrays / structs / maps, contract calls, NEP-17 transfers) and m-of-n key lists (n up to 129, repeated keys). A case is one input evaluated against all clauses of its family; distinct by (family, input class: boundary kind, sign, lengths, shapes), non-trivial when the codec / verifier / parser was reached"
+	return "laws: seeded, boundary-biased inputs per family — keys (scalars 1..16, order-1.., powers of two, leading zero bytes, coordinates with a leading zero byte; P-256 and secp256k1), decoding histories (1-4 keys whose 33-byte encoding is a point on both curves, decoded through the caching entry points on both curves in both orders, repeatedly, interleaved with other keys and with forced eviction of the 1024-entry cache; every decode checked for curve, X, Y, re-encoding and signature verification), messages, NEP-2 passphrases (incl. non-NFC spellings), Base58Check payloads (leading zero bytes, powers of 58 and 256), script hashes, Uint160/256 (zero, ff, leading/trailing zeros), Fixed8 / decimals (unit and int64 boundaries, fraction-only, precisions 0-18), VM integers (sign-bit, byte-carry and word-carry boundaries up to 40 bytes; arbitrary and sign-extended byte strings), hash lists of 0-33 (and up to 257; thorough 4097) leaves, value trees for the script builder (ints of every operand width, byte strings at the PUSHDATA1/2/4 limits, bools, null, nested arrays / structs / maps, contract calls, NEP-17 transfers) and m-of-n key lists (n up to 129, repeated keys). A case is one input evaluated against all clauses of its family; distinct by (family, input class: boundary kind, sign, lengths, shapes), non-trivial when the codec / verifier / parser was reached"
 }
 
 func runLaws(run *ev.Run) {
@@ -157,6 +157,7 @@ func runLaws(run *ev.Run) {
 	}
 	timed("key", func() { keyFamily(run, ev.Pick(6000, 100000)) })
 	timed("k1", func() { k1Family(run, ev.Pick(300, 2000)) })
+	timed("keycache", func() { keyCacheFamily(run, ev.Pick(600, 8000)) })
 	timed("nep2", func() { nep2Family(run, ev.Pick(600, 20000), ev.Pick(6, 48)) })
 	timed("base58check", func() { b58Family(run, ev.Pick(8000, 300000)) })
 	timed("address", func() { addrFamily(run, ev.Pick(3000, 100000)) })
